@@ -401,6 +401,18 @@ func (bd *BlockDownloader) handleBlock(ctx context.Context, header *wire.BlockHe
 			len(blockTxIDs))
 	}
 
+	// Verify the merkle proofs before anything is reported. A malformed block can still produce the
+	// correct merkle root (i.e. transactions repeated at the end of the block) but the merkle proofs
+	// for the repeated transactions will not be valid.
+	for i := range blockTxIDs {
+		merkleProofs[i].BlockHeader = header
+		merkleProofs[i].BlockHash = &hash
+
+		if err := merkleProofs[i].Verify(); err != nil {
+			return errors.Wrap(err, "merkle proof")
+		}
+	}
+
 	if bd.wasCancelled() {
 		return errBlockDownloadCancelled
 	}
